@@ -255,6 +255,9 @@ pub fn run(rep: &mut Report) {
     let mut reqs: Vec<String> = vec![];
     let mut impl_arr: Vec<String> = vec![];
     for i in 0..n {
+        if rep.verdict_clear() {
+            break;
+        }
         let mut rs = gen_result_set(&mut rng, 6);
         if i == 0 {
             // witness of the repaired covdir/html defect: counts >= 2^63
